@@ -440,7 +440,13 @@ class _resolve_called_lambdas(ast.NodeTransformer):
             only_positional = (
                 len(l_args.kwonlyargs) == 0 and l_args.vararg is None and l_args.kwarg is None
             )
-            if only_positional and len(positional) == len(node.args) and len(node.keywords) == 0:
+            starred = any(isinstance(a, ast.Starred) for a in node.args)
+            if (
+                only_positional
+                and not starred
+                and len(positional) == len(node.args)
+                and len(node.keywords) == 0
+            ):
                 arg_values = [self.visit(a) for a in node.args]
 
                 # First resolve everything inside the body, leaving this lambda's own
